@@ -3,6 +3,7 @@ import DadiVerif.Lemmas.Precalc
 import DadiVerif.Lemmas.Pivots
 import DadiVerif.Lemmas.Positivity
 import DadiVerif.Lemmas.GridReal
+import DadiVerif.Lemmas.DriverProgram
 /-!
 # C02 — every integration path solves the documented implicit scheme
 
@@ -129,6 +130,65 @@ theorem C02_wiring_drivers :
     ∧ Py.dtCalls.map (fun c => (c.d, c.ax, c.args))
       = (List.range 5).flatMap (fun d => (List.range (d+1)).map (fun ax => (d+1, ax, expectedDtArgs (d+1) ax))) := by
   decide
+
+/-! ### The time loops of the ten drivers, statement by statement
+
+`Py.driverPrograms` is the translation of the time loops of `one_pop … five_pops` (4-D/5-D: constants are wrapped into constant
+functions and take the same loop) and of `_one/_two/_three_pops_const_params` into a closed statement language (anything else in
+a loop — `break`, another loop form, an extra statement — does not translate and is reported as a broken obligation).
+`Prog.resolve` binds each call by NAME against the callee's signature: `_compute_dt`, `_inject_mutations_<d>D`, and for a kernel the
+chain wrapper in `integration_c.pyx` → C function in `integration<d>D.c` → role of each C parameter in the body (size → `Vfunc`,
+rate ↔ coordinate → `Mfunc`, `dt` → `compute_abc_nobc` and the right-hand side, switch → `compute_delj`), all generated. -/
+
+/-- **every driver's translated time loop is the schedule of the model**, call by call and binding by binding: kernel (d, ax) is
+    called with the density, the grids, and ν_ax, (m_{ax,l} paired with coordinate l), γ_ax, h_ax (β in 1-D) in the slots just
+    re-evaluated, `this_dt`, the delj switch, under `if not frozen_ax`; the constant drivers call the pre-computed kernel of axis ax
+    with the a/b/c arrays of that axis (whose ν, m, γ, h are `Py.preParams`); plus everything `C03_driver_schedule` and
+    `C04_driver_flags` say. -/
+theorem C02_driver_program : Py.driverPrograms.map Prog.resolve = Prog.expectedAll := by
+  decide +kernel
+
+/-- **…and that schedule, executed statement by statement, IS the model the correspondence harness runs**: for every translated
+    driver, every environment (parameter functions, flags, T, initial time), any grids, delj setting and number of steps,
+    running its resolved program with the kernel semantics `injectFn`/`stepAxisFn` equals `integrateFn` (time-dependent drivers:
+    dt from the current values, the whole parameter set at `next_t`, `while t < T` with the clipped last step) resp.
+    `integrateConst` (constant drivers) of `sweepFn`. -/
+theorem C02_driver_program_is_model (P : Py.DriverProgram) (hP : P ∈ Py.driverPrograms) (grids : List (Array ℚ))
+    (hd : grids.length = (Prog.resolve P).d) (use : Bool) (eps : ℕ → List ℕ → ℕ → ℚ) (E : Prog.PEnv) (fuel : ℕ)
+    (vals0 : Py.Param → ℚ) (φ : List ℕ → ℚ) :
+    let d := grids.length
+    Prog.run (Prog.semFn grids use eps) E (Prog.resolve P) fuel vals0 φ
+      = if (Prog.resolve P).const then
+          integrateConst (sweepFn grids (Prog.frList d E) (Prog.nmList d E) use eps) E.tf (Prog.toStep d vals0) E.T fuel E.t0 φ
+        else
+          integrateFn (sweepFn grids (Prog.frList d E) (Prog.nmList d E) use eps) E.tf
+            (fun τ => Prog.toStep d (fun p => E.pf p τ)) E.T fuel E.t0 (Prog.toStep d (fun p => E.pf p E.t0)) φ := by
+  intro d
+  have hmem : Prog.resolve P ∈ Prog.expectedAll := by
+    rw [← C02_driver_program]; exact List.mem_map_of_mem hP
+  simp only [Prog.expectedAll, List.mem_append, List.mem_map, List.mem_range] at hmem
+  rcases hmem with ⟨k, _, hk⟩ | ⟨k, _, hk⟩
+  · rw [← hk] at hd ⊢
+    have e : grids.length = k + 1 := by simpa [Prog.expected] using hd
+    have hc : (Prog.expected (k + 1) false).const = false := by simp [Prog.expected]
+    rw [hc, Prog.run_expected_fn, ← Prog.sweepOf_semFn]
+    simp only [d, e, Bool.false_eq_true, if_false]
+  · rw [← hk] at hd ⊢
+    have e : grids.length = k + 1 := by simpa [Prog.expected] using hd
+    have hc : (Prog.expected (k + 1) true).const = true := by simp [Prog.expected]
+    rw [hc, Prog.run_expected_const, ← Prog.sweepOf_semFn]
+    simp only [d, e, if_true]
+
+/-- non-vacuity: there are eight translated loops, of the dimensions and kinds expected, each with a non-empty body -/
+example : Py.driverPrograms.map (fun P => (P.d, P.const, decide (P.body.length > 3))) =
+    [(1, false, true), (2, false, true), (3, false, true), (4, false, true), (5, false, true),
+     (1, true, true), (2, true, true), (3, true, true)] := by decide
+
+/-- the constant / time-dependent dispatch of `one_pop`, `two_pops`, `three_pops`: all parameters are tested for being scalars, and
+    every parameter of `_<n>_pops_const_params` receives the caller's argument of the same name (four_pops/five_pops have no such
+    path: `C02_driver_program` shows their constants go through the time-dependent loop, `C02_const_fn` that this is the same) -/
+theorem C02_driver_dispatch : Py.dispatches.all Prog.dispatchOk = true ∧ Py.dispatches.map (·.d) = [1, 2, 3] := by
+  decide +kernel
 
 /-- **precomputed-coefficient drivers = on-the-fly kernels**: for each of the six coefficient sets that the Python
     constant-parameter drivers assemble (`_one/_two/_three_pops_const_params`, update expressions regenerated from the source
